@@ -592,5 +592,28 @@ func c12Today(e *core.Env, r *core.Rand, d *gen.Out, f string, today ref.Date, m
 			}
 			e.Count("print_with_totals_views", 1)
 		}
+		// the same view narrowed to single days: small outputs, in which an entry's value may be wider than every record total
+		for k := 0; k < 2 && len(d.Doc.Recs) > 0; k++ {
+			day := d.Doc.Recs[r.Intn(len(d.Doc.Recs))].Date
+			sub := &ref.Doc{}
+			for i := range d.Doc.Recs {
+				if d.Doc.Recs[i].Date == day {
+					sub.Recs = append(sub.Recs, d.Doc.Recs[i])
+				}
+			}
+			fres := runRO(e, &cli.Print{WithTotals: true, FilterArgs: util.FilterArgs{Date: kdate(day.Y, day.M, day.D)}, WarnArgs: util.WarnArgs{NoWarn: true}, NoStyleArgs: util.NoStyleArgs{NoStyle: true},
+				InputFilesArgs: util.InputFilesArgs{File: files(f)}}, 1, "", "", clock)
+			if fres.Panic != nil {
+				e.Violation("print-with-totals-panic: "+fres.Panic.Site(), fmt.Sprintf("`klog print --with-totals --date %s` panicked: %s", day, fres.Panic.Value), w)
+				return
+			}
+			if fres.Err == nil {
+				if diff := c02CheckWithTotals(fres.Out, sub); diff != "" {
+					e.Violation("print-with-totals-wrong", fmt.Sprintf("`klog print --with-totals --date %s`: %s\n%s", day, diff, trunc(fres.Out, 800)), w)
+					return
+				}
+				e.Count("print_with_totals_single_day_views", 1)
+			}
+		}
 	}
 }
